@@ -167,10 +167,6 @@ fn flow_cell_after(base: &ureq_proto::client::flow::Flow<(), ureq_proto::client:
     }
 }
 
-fn call_cell(base: &ureq_proto::client::call::Call<ureq_proto::client::call::state::RecvResponse, ()>, head: &[u8]) -> Seen {
-    call_cell_after(base, head, false)
-}
-
 fn call_cell_after(base: &ureq_proto::client::call::Call<ureq_proto::client::call::state::RecvResponse, ()>, head: &[u8], after_interim: bool) -> Seen {
     let mut c = base.clone();
     if after_interim {
